@@ -27,7 +27,8 @@ def build(pid, P, R, tier, log_dir):
             mp.XOb("X-check_ident_return", "", "", lambda: run_ident_return(P, R, mp, log_dir)),
             mp.XOb("X-check_if", "", "", lambda: run_check_if(P, R, mp, log_dir, 2 if tier == "quick" else 3)),
             mp.XOb("X-generic_nominal", "", "", lambda: run_generic_nominal(P, R, mp, log_dir)),
-            mp.XOb("X-error_type_frame", "", "", lambda: run_error_type_frame(P, R, mp, log_dir))]
+            mp.XOb("X-error_type_frame", "", "", lambda: run_error_type_frame(P, R, mp, log_dir)),
+            mp.XOb("X-check_visits_all", "", "", lambda: run_check_visits_all(P, R, mp, log_dir, 1))]
 
 
 def executor(P, R):
@@ -1114,3 +1115,99 @@ def run_lower_total(P, R, mp, log_dir):
     else:
         r.update(status="inconclusive", reason=f"a statement kind is refused on every path ({r['deviating_path'][:200]}) but no accepted program shows it")
     return r
+
+
+# ---- every sub-expression and statement of a node is type-checked -------------------------------------------------------------------------------
+VISIT_PROGRAMS = [
+    ("unknown_in_match_guard", "def f(n: int) -> int:\n    match n:\n        case x if nope > 0:\n            return 1\n        case _:\n            return 0\n", "REJECTED", "nope"),
+    ("non_bool_match_guard", "def f(n: int) -> int:\n    match n:\n        case x if \"s\":\n            return 1\n        case _:\n            return 0\n", "REJECTED", None),
+    ("guard_uses_binding", "def f(n: int) -> int:\n    match n:\n        case x if x > 0:\n            return 1\n        case _:\n            return 0\n", "ACCEPTED", None),
+    ("unknown_in_while_condition", "def f(n: int) -> int:\n    while nope > 0:\n        break\n    return 0\n", "REJECTED", "nope"),
+    ("unknown_in_for_iterable", "def f(n: int) -> int:\n    for x in nope:\n        pass\n    return 0\n", "REJECTED", "nope"),
+    ("unknown_in_slice_bound", "def f(xs: List[int]) -> List[int]:\n    return xs[nope:]\n", "REJECTED", "nope"),
+    ("unknown_in_dict_value", "def f(n: int) -> int:\n    d = {1: nope}\n    return 0\n", "REJECTED", "nope"),
+    ("unknown_in_fstring", "def f(n: int) -> str:\n    return f\"x{nope}\"\n", "REJECTED", "nope"),
+    ("unknown_in_match_arm_block", "def f(n: int) -> int:\n    match n:\n        0 =>\n            return nope\n        _ =>\n            return 0\n", "REJECTED", "nope"),
+    ("unknown_in_list_comp_filter", "def f(xs: List[int]) -> List[int]:\n    return [x for x in xs if nope > 0]\n", "REJECTED", "nope"),
+    ("unknown_in_keyword_argument", "def g(a: int) -> int:\n    return a\n\ndef f(n: int) -> int:\n    return g(a=nope)\n", "REJECTED", "nope"),
+    ("unknown_in_index_assignment_index", "def f(xs: List[int]) -> int:\n    xs[nope] = 1\n    return 0\n", "REJECTED", "nope"),
+]
+
+
+def run_check_visits_all(P, R, mp, log_dir, bound):
+    import scan_props as sp
+    import tc_props
+    t0 = time.time()
+    fam_re = r"::(check_expr|check_statement)$"
+    i_err = [x[0] for x in R.resolve("TypeChecker").variants[0][1]].index("errors")
+    devs, n_paths, arms_done, skipped, encoded = [], 0, 0, [], set()
+    # arms whose symbolic execution explodes (exhaustiveness + constructor matching inside) are executed with tighter list bounds
+    for fname, ty in (("check_statement", sp.AST + "Statement"), ("check_expr", sp.AST + "Expr")):
+        f = tc_props.find_fn(P, fname)
+        td = R.resolve(ty)
+        for k, (vname, _) in enumerate(td.variants):
+            ex = executor(P, R)
+            ex.model_sequences = True
+            ex.seq_bound = bound
+            ex.recursion_bound = 0
+            ex.max_steps = 6000
+            ex.max_paths = 60000
+            ex.summarize = list(ex.summarize) + [fam_re, r"HashMap::<.*>::\w+(::<.*>)?$", r"HashSet::<.*>::\w+(::<.*>)?$", r"ensure_bool_condition$", r"Vec::<.*>::push$",
+                                                 r"check_match_exhaustiveness$", r"check_pattern$"]
+            selfv = ex.sym_value("TypeChecker", "self")
+            node = ex.sym_value(f"incan_syntax::ast::Spanned<{ty}>", "s")
+            e = node.child(None, 0)
+            st0 = symex.State()
+            st0.facts[e.tag().term] = ("eq", k)
+            st0.pc.append(f"(= {e.tag().term} {k})")
+            try:
+                outs = ex.run(f, [selfv, node], state=st0)
+            except Exception as x:
+                skipped.append(f"{fname}::{vname}: {str(x)[:60]}")
+                continue
+            encoded |= set(ex.encoded)
+            rets = [o for o in outs if o.kind == "return"]
+            if not rets:
+                skipped.append(f"{fname}::{vname}: no executable path")
+                continue
+            arms_done += 1
+            for o in rets:
+                n_paths += 1
+                evs = o.state.events
+                if any((ev[0].endswith("Vec::push") and ev[1] and f"sym<self.{i_err}:" in ev[1][0]) or
+                       re.search(r"errors::\w+$|mismatch|unknown_symbol|mutation_without_mut", ev[0]) for ev in evs):
+                    continue        # a diagnostic is already reported on this path: the program is rejected whatever the rest contains
+                fam = [ev for ev in evs if re.search(fam_re, ev[0]) or ev[0].split("::")[-1] in ("check_expr", "check_statement")]
+                asked = " ".join(" ".join(ev[1]) for ev in fam)
+                out, missing = [], []
+                sp.leaves(R, ty, e.name, None, o.state.facts, out, missing, 0, asked)
+                for kind, nm in out:
+                    par = nm[:-2] if nm.endswith(".0") else nm
+                    hit = re.search(r"sym<" + re.escape(nm) + r":", asked) or re.search(r"sym<" + re.escape(par) + r":", asked)
+                    if not hit and kind == "body":
+                        ln = o.state.facts.get("len:" + nm)
+                        hit = ln is not None and all(re.search(r"sym<" + re.escape(f"{nm}.e{j}") + r":", asked) for j in range(ln))
+                    if not hit:
+                        devs.append(f"{fname}, {vname}: the {'statements' if kind == 'body' else 'sub-expression'} `{nm}` "
+                                    f"{'are' if kind == 'body' else 'is'} not type-checked on a path that reports no error")
+                for nm in missing:
+                    devs.append(f"{fname}, {vname}: `{nm}` (which can contain code) is never examined on a path that reports no error")
+    uniq = list(dict.fromkeys(devs))
+    r = {"id": "X-check_visits_all", "engine": "E2-X mirsmt",
+         "statement": "type checker, traversal: in every arm of check_statement and check_expr, on every path that reports no error, EVERY sub-expression and EVERY statement of "
+                      "the node has been handed to check_expr / check_statement - so a rule broken inside any part of any construct (guards, conditions, slice bounds, "
+                      "keyword arguments, comprehension filters ...) is seen by the rule that reports it",
+         "bound": f"every arm that the model executes (lists of 0..={bound}); the rule helpers run for real with the symbol table, compatibility test, exhaustiveness and pattern "
+                  "checks as uninterpreted calls; arms that are not executable are listed in `not_executed` and are NOT claimed",
+         "functions_encoded": sorted(x + " (MIR)" for x in encoded), "paths": n_paths, "arms": arms_done, "not_executed": skipped[:12]}
+    r["wall_s"] = round(time.time() - t0, 2)
+    if n_paths == 0:
+        r.update(status="inconclusive", reason=f"no arm executed: {skipped[:2]}")
+        return r
+    r["vacuity_ok"] = True
+    if not uniq:
+        r.update(status="held", solver=f"{n_paths} error-free paths over {arms_done} arms: every code-carrying child is type-checked")
+        return r
+    r["deviating_path"] = "; ".join(uniq[:4])[:600]
+    broken, texts = verdicts(VISIT_PROGRAMS, log_dir, "c03visit")
+    return report(r, log_dir, "visit", broken, texts, f"{len(VISIT_PROGRAMS)} programs with an unknown name inside a guard / condition / bound / argument are rejected as documented")
